@@ -1,6 +1,6 @@
 #!/venv/bin/python
 """Regenerates the hand-written replay files of the known findings and checks that each one still
-fails the way known_findings.json says. Usage: findings/make.py"""
+fails the way known_findings.json says. Usage: findings/make.py [name ...]"""
 import json, os, sys
 ROOT = os.path.dirname(os.path.dirname(os.path.abspath(__file__)))
 sys.path.insert(0, ROOT)
@@ -10,36 +10,117 @@ boot.boot()
 from gsim.profiles import get_profile
 from gsim.run import execute
 
-T_AB = ["AddTable", "T1", [{"id": "a", "type": "Int", "isFormula": False},
-                           {"id": "b", "type": "Text", "isFormula": False}]]
+def col(cid, typ, formula=None):
+  d = {"id": cid, "type": typ, "isFormula": formula is not None}
+  if formula is not None:
+    d["formula"] = formula
+  return d
+
+def B(*acts, **kw):
+  e = {"k": "bundle", "a": list(acts)}
+  e.update(kw)
+  return e
+
+T_AB = ["AddTable", "T1", [col("a", "Int"), col("b", "Text")]]
 ROWS = ["BulkAddRecord", "T1", [None, None, None], {"a": [1, 2, 3], "b": ["x", "y", "z"]}]
+OPEN = {"k": "open"}
 
 FINDINGS = {
-  "F-i.c04": {
-    "profile": "c04", "cfg": {"kinds": ["F2sch"], "max_events": 3},
-    "events": [{"k": "open"}, {"k": "bundle", "a": [T_AB, ROWS]},
-               {"k": "fbundle", "a": [["RenameColumn", "T1", "b", "b2"]],
-                "fault": {"kind": "F2sch", "u": 0.0}, "ops": ["rename_column"]}],
-  },
-  "F-u.c04": {
-    "profile": "c04", "cfg": {"kinds": ["F3s"], "max_events": 3},
-    "events": [{"k": "open"}, {"k": "bundle", "a": [T_AB, ROWS]},
-               {"k": "fbundle", "a": [["BulkUpdateRecord", "T1", [1, 2, 3], {"a": [7, 8, 9]}]],
-                "fault": {"kind": "F3s", "u": 0.5}, "ops": ["update_records"]}],
-  },
+  # C04 ------------------------------------------------------------------------------------------
+  "F-i.c04": {"profile": "c04", "cfg": {"kinds": ["F2sch"]}, "events": [
+    OPEN, B(T_AB, ROWS),
+    {"k": "fbundle", "a": [["RenameColumn", "T1", "b", "b2"]], "fault": {"kind": "F2sch", "u": 0.0},
+     "ops": ["rename_column"]}]},
+  "F-u.c04": {"profile": "c04", "cfg": {"kinds": ["F3s"]}, "events": [
+    OPEN, B(T_AB, ROWS),
+    {"k": "fbundle", "a": [["BulkUpdateRecord", "T1", [1, 2, 3], {"a": [7, 8, 9]}]],
+     "fault": {"kind": "F3s", "u": 0.5}, "ops": ["update_records"]}]},
+  "F-l.c04": {"profile": "c04", "cfg": {"kinds": ["F1", "F2sch"]}, "events": [
+    OPEN, B(T_AB, ROWS), B(["CreateViewSection", 1, 0, "record", [2], None]),
+    # removing the only source row of a group: the empty summary row is auto-removed after the `try`
+    {"k": "fbundle", "a": [["RemoveRecord", "T1", 3]], "fault": {"kind": "F1", "u": 0.99, "phase": "post"},
+     "ops": ["remove_records"]}]},
+  # C24 ------------------------------------------------------------------------------------------
+  "F-v.c24": {"profile": "c24", "cfg": {}, "events": [
+    OPEN, B(["AddTable", "H", [col("a", "Int")]], ["BulkAddRecord", "H", [None, None], {"a": [1, 2]}], ops=["setup"]),
+    B(["AddColumn", "H", "h1", {"type": "Any", "isFormula": True,
+                                "formula": "(lambda: [x for x in [[]] if not x.append(x)][0])()"}], ops=["hostile_formula"]),
+    {"k": "restart", "mode": "reported"}]},
+  # C01 ------------------------------------------------------------------------------------------
+  "F-s.c01": {"profile": "c01", "cfg": {}, "events": [
+    OPEN, B(["AddTable", "T1", [col("c1", "Date")]], ["BulkAddRecord", "T1", [None], {"c1": [1641686400]}]),
+    B(["CreateViewSection", 1, 0, "record", [2], None]),
+    B(["UpdateSummaryViewSection", 5, []]),
+    B(["UpdateSummaryViewSection", 5, [2]], ["RemoveViewSection", 5])]},
+  # C05 ------------------------------------------------------------------------------------------
+  "F-t.c05": {"profile": "c05", "cfg": {"check_every": 1}, "events": [
+    OPEN, B(["AddTable", "T1", [col("c1", "Text"), col("c3", "Int")]],
+            ["BulkAddRecord", "T1", [None] * 4, {"c1": ["A", "e", "A", "c"], "c3": [0, 0, 0, 0]}]),
+    B(["AddColumn", "T1", "f4", {"type": "Any", "isFormula": True,
+                                 "formula": "[r.id for r in T1.lookupRecords(c3=$c3, order_by=\"-c1\")]"}]),
+    B(["ModifyColumn", "T1", "f4", {"isFormula": False}]),
+    B(["AddRecord", "T1", None, {"c1": "e", "c3": 2}]),
+    B(["AddColumn", "T1", "f7", {"type": "Any", "isFormula": True,
+                                 "formula": "[r.id for r in T1.lookupRecords(c3=$c3, order_by=\"c1\")]"}]),
+    B(["RemoveColumn", "T1", "f7"]),
+    B(["ModifyColumn", "T1", "f4", {"isFormula": True}]),
+    B(["AddRecord", "T1", None, {"c1": "A", "c3": 0}])]},
+  "F-r.c05": {"profile": "c05", "cfg": {"check_every": 1}, "events": [
+    OPEN, B(["AddTable", "T1", [col("c2", "Int")]], ["AddRecord", "T1", None, {"c2": 1}]),
+    B(["AddColumn", "T1", "f8", {"type": "Any", "isFormula": True, "formula": "$c2.nosuch"}]),
+    B(["ModifyColumn", "T1", "f8", {"isFormula": False}]),
+    B(["AddColumn", "T1", "f10", {"type": "Any", "isFormula": True, "formula": "UPPER(str($f8))"}])]},
+  "F-c.c05": {"profile": "c05", "cfg": {"check_every": 1}, "events": [
+    OPEN, B(["AddTable", "T1", [col("a", "Int"), col("s", "Int")]],
+            ["BulkAddRecord", "T1", [None] * 3, {"a": [1, 1, 2], "s": [3, 2, 1]}]),
+    B(["AddTable", "T2", [col("k", "Int")]], ["BulkAddRecord", "T2", [None] * 2, {"k": [1, 2]}]),
+    B(["AddColumn", "T2", "f", {"type": "Any", "isFormula": True,
+                                "formula": "[r.id for r in T1.lookupRecords(a=$k, order_by=\"s\")]"}]),
+    B(["ModifyColumn", "T1", "s", {"isFormula": True, "formula": "1/0"}]),
+    B(["UpdateRecord", "T1", 1, {"a": 2}])]},
+  "F-b.c05": {"profile": "c05", "cfg": {"check_every": 1}, "events": [
+    OPEN, B(["AddTable", "T1", [col("a", "Int")]], ["AddRecord", "T1", None, {"a": 1}]),
+    B(["AddColumn", "T1", "f", {"type": "Any", "isFormula": True, "formula": "len(Later.all)"}]),
+    B(["AddTable", "Later", [col("x", "Int")]])]},
+  # C11 ------------------------------------------------------------------------------------------
+  "F-q.c11": {"profile": "c11", "cfg": {}, "events": [
+    OPEN, B(["AddTable", "T1", [col("a", "Ref:T1")]], ["BulkAddRecord", "T1", [None] * 3, {}]),
+    B(["AddReverseColumn", "T1", "a"]),
+    B(["BulkUpdateRecord", "T1", [1, 2], {"a": [2, 3], "T1": [["L", 3], None]}])]},
+  "F-w.c11": {"profile": "c11", "cfg": {}, "events": [
+    OPEN, B(["AddTable", "T1", [col("p", "RefList:T1"), col("q", "RefList:T1")]],
+            ["BulkAddRecord", "T1", [None] * 3, {"p": [["L", 2, 3], None, ["L", 1]]}]),
+    B(["ModifyColumn", "T1", "p", {"reverseCol": 3}])]},
+  # C16 ------------------------------------------------------------------------------------------
+  "F-y.c16": {"profile": "c16", "cfg": {}, "events": [
+    OPEN, B(["AddTable", "T1", [col("c1", "Numeric")]], ["BulkAddRecord", "T1", [None] * 2, {"c1": [1.5, 2.0]}]),
+    B(["AddTable", "T2", [col("x", "Int")]]),
+    B(["CreateViewSection", 1, 0, "record", [], None]),
+    B(["RenameTable", "T2", "SUM"], ops=["rename_any"]),
+    # the shadowing shows when the summary formula is next recomputed
+    B(["RenameTable", "T1", "T9"], ops=["rename_any"])]},
+  # C29 ------------------------------------------------------------------------------------------
+  "F-n.c29": {"profile": "c29", "cfg": {}, "events": [
+    OPEN, B(["AddTable", "T1", [col("c", "Int")]], ["BulkAddRecord", "T1", [None] * 2, {"c": [1, 2]}]),
+    B(["CreateViewSection", 1, 0, "record", [2], None]),
+    {"k": "tread", "call": "evaluate_formula", "args": ["T1_summary_c", "group", 1]},
+    B(["UpdateRecord", "T1", 1, {"c": 5}])]},
 }
 
 ok = True
-for name, f in FINDINGS.items():
+names = sys.argv[1:] or sorted(FINDINGS)
+for name in names:
+  f = FINDINGS[name]
   p = get_profile(f["profile"])
-  r = execute(p, cfg=f["cfg"], events=f["events"])
-  print(name, r.violation, r.harness_error)
-  if not r.violation:
+  r = execute(p, cfg=f["cfg"], events=json.loads(json.dumps(f["events"])))
+  v = r.violation
+  print("%-10s %s %s" % (name, (v["oracle"] + ": " + v["detail"][:230]) if v else "NO VIOLATION",
+                          ("HARNESS " + r.harness_error[-300:]) if r.harness_error else ""))
+  if not v:
     ok = False
     continue
   with open(os.path.join(ROOT, "findings", name + ".json"), "w") as out:
-    json.dump({"property": r.violation["prop"], "oracle": r.violation["oracle"],
-               "profile": f["profile"], "seed": None, "cfg": f["cfg"], "events": f["events"],
-               "observed": r.violation, "note": "hand-written minimal history for a known finding"},
-              out, indent=1, sort_keys=True)
+    json.dump({"property": v["prop"], "oracle": v["oracle"], "profile": f["profile"], "seed": None,
+               "cfg": f["cfg"], "events": f["events"], "observed": v,
+               "note": "hand-written minimal history for a known finding"}, out, indent=1, sort_keys=True)
 sys.exit(0 if ok else 1)
